@@ -622,7 +622,9 @@ func NewCompositeLiteral(pos *Position, typ Expression, keyValues []KeyValue) *C
 // String returns the string representation of n.
 func (n *CompositeLiteral) String() string {
 	var s strings.Builder
-	s.WriteString(n.Type.String())
+	if n.Type != nil {
+		s.WriteString(n.Type.String())
+	}
 	if expandedPrint {
 		s.WriteString("{")
 		for i, kv := range n.KeyValues {
